@@ -58,6 +58,11 @@ def smb1Request (m : Bytes) : Option Smb1Req :=
     if secLen ≥ 1 ∧ secLen ≤ bc ∧ p.length - 27 = bc then some .sessionSetup else none
   else none
 
+/-- the SMB1 dialect strings the responder can select (it answers in the NT LM 0.12 format and
+    announces SMB2 through the two SMB 2 strings) -/
+def smb1Speaks (d : Bytes) : Bool :=
+  d = "NT LM 0.12".toUTF8.toList || d = "SMB 2.???".toUTF8.toList || d = "SMB 2.002".toUTF8.toList
+
 /-- consistency of an SMB1 response `r` (NetBIOS framed) to request message `m` -/
 def smb1ReplyOk (m : Bytes) (req : Smb1Req) (r : Bytes) : Bool :=
   match nbtBody r with
@@ -75,6 +80,7 @@ def smb1ReplyOk (m : Bytes) (req : Smb1Req) (r : Bytes) : Bool :=
      (match req with
       | .negotiate ds =>
         wc = 17 && le16 p 1 < ds.length &&                 -- DialectIndex points into the offered list
+        (!ds.any smb1Speaks || smb1Speaks (ds.getD (le16 p 1) [])) &&   -- … at a dialect the responder speaks, if one was offered
         le16 p bcOff ≥ 16                                  -- GUID + security blob
       | .sessionSetup =>
         wc = 4 && le16 p 7 ≤ le16 p bcOff && le16 p 7 ≥ 1))   -- SecurityBlobLength ≤ ByteCount
